@@ -48,7 +48,7 @@ CHECKS = {
     },
     "C10": {
         "cmd": "c10", "flavours": ["checked", "release"], "level": "exploration", "engine_name": "vh-seq", "design_ref": "DESIGN.md §4 C10",
-        "budget": {"quick": 20, "thorough": 300},
+        "budget": {"quick": 30, "thorough": 300},
         "technique": "runtime monitoring: real SimpleDominanceChecker against a naive recorded-list Pareto model (exhaustive short query sequences + random long ones); differential solver runs with/without checker judged by the optimum",
         "rule": "(a) real SimpleDominanceChecker over a test Dominance (2 keys + one key-less state, coordinates {0,1,2}x{0,1}, values {0,1,2}, use_value on and off): every query sequence up to length 3 (quick) / 4 (thorough) over the 37-query universe, and random sequences of 5..200 queries over two depths; reference = list of all states presented so far: dominated iff some presented state of the same key/depth is >= everywhere and > somewhere; threshold >= value and the state presented at the threshold is dominated by the reference; comparator consistency for all pairs (partial_cmp vs reference, cmp ranks a dominating state first). (b) solver level: families T and K with exact and weakened admissible rules, sequential, free-running parallel and parallel under the controlled scheduler (random schedules with the dominance queries and cache operations as yield points), same configuration with and without checker vs the optimum. Non-trivial: (a) sequence with >= 1 dominated verdict and >= 1 eviction, (b) run in which >= 1 node was discarded by dominance (counted by a wrapper).",
         "level_text": "Exploration, exhaustive over short query sequences on a small alphabet; solver-level differential runs judged by the exhaustive optimum.",
